@@ -37,6 +37,9 @@ type caseSpec struct {
 	Tokens   []string   `json:"tokens,omitempty"`
 	Zeros    int        `json:"zeros,omitempty"`
 	ZeroKind string     `json:"zero_kind,omitempty"` // len0 | claimed0
+	// Prelude: well-formed frames sent BEFORE the frame under test and decoded by the same Decoder (the
+	// inflater and whatever else it keeps are then in their re-used state): "" | z | zz | raw
+	Prelude  string     `json:"prelude,omitempty"`
 	Sentinel bool       `json:"sentinel,omitempty"`  // a well-formed frame follows
 	Cut      int        `json:"cut"`                 // -1: whole stream, else only the first Cut bytes
 }
@@ -50,6 +53,9 @@ func (c *caseSpec) String() string {
 		s = "tokens{" + strings.Join(c.Tokens, " ") + "}"
 	case "zeros":
 		s = fmt.Sprintf("zeros{%d×%s}", c.Zeros, c.ZeroKind)
+	}
+	if c.Prelude != "" {
+		s = "prelude(" + c.Prelude + ")+" + s
 	}
 	if c.Sentinel {
 		s += "+sentinel"
@@ -214,13 +220,50 @@ func freeToken(tok string) []byte {
 	panic("bad free token " + tok)
 }
 
+var preludeCache sync.Map // cfgSpec+name -> []byte
+
+// prelude frames: "z" one compressed frame (300 bytes, or threshold+5 when that is more), "zz" two of them
+// (different sizes), "raw" an uncompressed one (2 bytes; under compression: min(2,threshold) bytes with data length 0)
+func prelude(cfg cfgSpec, name string) []byte {
+	type key struct {
+		cfg  cfgSpec
+		name string
+	}
+	if b, ok := preludeCache.Load(key{cfg, name}); ok {
+		return b.([]byte)
+	}
+	zframe := func(n int) []byte {
+		return refframe.Frame(append(refframe.VarInt(int32(n)), refframe.Zlib(content(n), 6)...))
+	}
+	var b []byte
+	switch {
+	case name == "raw" && !cfg.Comp:
+		b = refframe.Frame(content(2))
+	case name == "raw":
+		b = refframe.Frame(append([]byte{0}, content(min(2, cfg.Thr))...))
+	case !cfg.Comp:
+		panic("compressed prelude without compression")
+	case name == "z":
+		b = zframe(max(300, cfg.Thr+5))
+	case name == "zz":
+		b = append(zframe(max(300, cfg.Thr+5)), zframe(max(41, cfg.Thr))...)
+	default:
+		panic("bad prelude " + name)
+	}
+	preludeCache.Store(key{cfg, name}, b)
+	return b
+}
+
 func (c *caseSpec) build() []byte {
 	var s []byte
+	if c.Prelude != "" {
+		s = append(s, prelude(c.Cfg, c.Prelude)...)
+	}
 	switch c.Kind {
 	case "frame":
 		d, _ := dataBytes(c.Frame.Data)
 		body := append(append([]byte(nil), claimBytes(c.Frame.Claim)...), d...)
-		s = append(lenBytes(c.Frame.Len, len(body)), body...)
+		s = append(s, append(lenBytes(c.Frame.Len, len(body)), body...)...)
 	case "tokens":
 		for _, t := range c.Tokens {
 			s = append(s, freeToken(t)...)
@@ -239,8 +282,14 @@ func (c *caseSpec) build() []byte {
 	if c.Sentinel {
 		s = append(s, sentinel(c.Cfg)...)
 	}
-	if c.Cut >= 0 && c.Cut < len(s) {
-		s = s[:c.Cut]
+	if c.Cut >= 0 { // Cut counts from the start of the frame under test (the prelude always arrives whole)
+		pl := 0
+		if c.Prelude != "" {
+			pl = len(prelude(c.Cfg, c.Prelude))
+		}
+		if pl+c.Cut < len(s) {
+			s = s[:pl+c.Cut]
+		}
 	}
 	return s
 }
@@ -356,11 +405,29 @@ func enumFrames(r *vrt.R, cfg cfgSpec, emit func(*caseSpec) bool) bool {
 		if !emit(full) {
 			return false
 		}
+		alone := &caseSpec{Cfg: cfg, Kind: "frame", Frame: &f, Cut: -1}
+		n := len(alone.build())
+		if fs.Len == "ok" {
+			// the same frame met by a Decoder that has already decoded well-formed frames (re-used inflater),
+			// whole and cut short
+			pres := []string{"raw"}
+			if cfg.Comp {
+				pres = []string{"z", "zz", "raw"}
+			}
+			for _, pre := range pres {
+				if !emit(&caseSpec{Cfg: cfg, Kind: "frame", Frame: &f, Prelude: pre, Sentinel: true, Cut: -1}) {
+					return false
+				}
+			}
+			for _, c := range dedupInts([]int{n - 1, n - 4, n / 2}, func(v int) bool { return v > 0 && v < n }) {
+				if !emit(&caseSpec{Cfg: cfg, Kind: "frame", Frame: &f, Prelude: pres[0], Cut: c}) {
+					return false
+				}
+			}
+		}
 		if !prefixes {
 			return true
 		}
-		alone := &caseSpec{Cfg: cfg, Kind: "frame", Frame: &f, Cut: -1}
-		n := len(alone.build())
 		for _, c := range cutPoints(n, len(lenBytes(fs.Len, n)), len(lenBytes(fs.Len, n))+len(claimBytes(fs.Claim))) {
 			if !emit(&caseSpec{Cfg: cfg, Kind: "frame", Frame: &f, Cut: c}) {
 				return false
